@@ -181,7 +181,9 @@ func TestC19Cdi(t *testing.T) {
 				}
 				_ = os.WriteFile(ociPath, data, 0o644)
 				for i, n := 0, rapid.IntRange(1, 3).Draw(t, fmt.Sprintf("nPat%d", si)); i < n; i++ {
-					patterns = append(patterns, rapid.SampledFrom([]string{"v1.com/gpu=*", "*", "v*/net.x=d?", "v2.org/gpu=d0", "v/gpu=2d", "*=d1", "nomatch/*", "v1.com/*=d0"}).Draw(t, fmt.Sprintf("pat%d_%d", si, i)))
+					patterns = append(patterns, rapid.SampledFrom([]string{"v1.com/gpu=*", "*", "v*/net.x=d?", "v2.org/gpu=d0", "v/gpu=2d", "*=d1", "nomatch/*", "v1.com/*=d0",
+						// the whole glob syntax of the matcher: escapes and character classes
+						`v1.com/gpu=d\0`, `v2.org/gpu\=d0`, `v1.com/gpu=d\?`, `v1.com/g[o-q]u=d[01]`, `[v]2.org/gpu=[^d]d`, `v\/gpu=2d`, `\v1.com/net.x=\d1`}).Draw(t, fmt.Sprintf("pat%d_%d", si, i)))
 				}
 				args = append([]string{"inject", "-o", format, ociPath}, patterns...)
 			default:
